@@ -466,6 +466,14 @@ func (v *VC) evCall(x SCall, env *SpecEnv) TV {
 		oe := *env.old
 		oe.bound = env.bound
 		return v.ev(x.Args[0], &oe)
+	case "atentry":
+		// atentry(e): e with the current values of variables, read in the heap of function entry
+		if env.old == nil || env.old.heap == nil {
+			specPanic("atentry() not available here")
+		}
+		ne := *env
+		ne.heap = env.old.heap
+		return v.ev(x.Args[0], &ne)
 	case "before":
 		id, ok := x.Args[0].(SIdent)
 		if !ok {
